@@ -216,6 +216,26 @@ impl SwiftField for Field25AccountIdentification {
         }
     }
 
+    fn parse_with_variant(
+        value: &str,
+        variant: Option<&str>,
+        _field_tag: Option<&str>,
+    ) -> crate::Result<Self>
+    where
+        Self: Sized,
+    {
+        match variant {
+            // The tag decides: `:25:` is the no-letter option whatever the content looks like
+            None | Some("") => Ok(Field25AccountIdentification::NoOption(
+                Field25NoOption::parse(value)?,
+            )),
+            Some("P") => Ok(Field25AccountIdentification::P(Field25P::parse(value)?)),
+            Some(other) => Err(ParseError::InvalidFormat {
+                message: format!("Option {} is not allowed for this field", other),
+            }),
+        }
+    }
+
     fn to_swift_string(&self) -> String {
         match self {
             Field25AccountIdentification::NoOption(field) => field.to_swift_string(),
